@@ -344,6 +344,7 @@ Proof.
   - pose proof (m_pwv_mono s k0 ver v k). destruct (m_pwv s k0 ver v); auto.
   - pose proof (m_batch_mono s l k). destruct (m_batch s l); auto.
   - pose proof (m_put_mono p s k0 [] k). destruct (m_put p s k0 []); auto.
+  - pose proof (m_batch_mono s l k). destruct (m_batch s l); auto.
 Qed.
 Lemma m_step_sorted p s o : ksorted s -> ksorted (fst (m_step p s o)).
 Proof.
@@ -352,6 +353,7 @@ Proof.
   - pose proof (m_pwv_sorted s k ver v S). destruct (m_pwv s k ver v); auto.
   - pose proof (m_batch_sorted s l S). destruct (m_batch s l); auto.
   - pose proof (m_put_sorted p s k [] S). destruct (m_put p s k [] ); auto.
+  - pose proof (m_batch_sorted s l S). destruct (m_batch s l); auto.
 Qed.
 
 Definition m_from (p : profile) (s : store) (ops : list op) : store :=
@@ -388,7 +390,7 @@ Definition accepted_writes (o : op) (x : obs) : list write :=
       | Put k v => [(k, None, v)]
       | Delete k => [(k, None, [])]
       | PutV k ver v => [(k, Some ver, v)]
-      | Batch l => map (fun e => (fst e, Some (fst (snd e)), snd (snd e))) l
+      | Batch l | Unlogged l => map (fun e => (fst e, Some (fst (snd e)), snd (snd e))) l
       | _ => []
       end
   | _ => []
@@ -469,6 +471,13 @@ Proof.
       * rewrite Ho; auto. intros ->. rewrite kcmp_refl in C. discriminate.
     + apply m_put_not_ok in E; [subst; exact A|discriminate].
     + apply m_put_not_ok in E; [subst; exact A|discriminate].
+  - (* put_batch_unlogged *)
+    destruct (m_batch s l) as [s' r] eqn:E. cbn [fst snd].
+    apply m_batch_atomic in E. destruct E as [[-> ->]|[-> G]]; cbn [obs_of_res accepted_writes last_write later].
+    + exact A.
+    + rewrite last_write_batch, (batch_go_spec l _ _ k G).
+      destruct (last_entry k l) as [[ver val]|]; cbn [option_map later fst snd]; auto.
+      exists ver. auto.
 Qed.
 
 (** all accepted writes of a history, oldest first *)
@@ -594,6 +603,7 @@ Proof.
   - cbn. repeat split; auto.
   - cbn. repeat split; auto.
   - cbn. repeat split; auto.
+  - rewrite d_batch_sim. destruct (m_batch t l) as [s' r]. cbn [fst snd]. repeat split; auto.
 Qed.
 
 (** the invariant, and the fate of the table, from ANY state satisfying the invariant
@@ -730,6 +740,7 @@ Proof.
       pose proof (m_pwv_never_aborts s k) as H;
       match goal with |- context [m_pwv s k ?v ?x] => specialize (H v x); destruct (m_pwv s k v x) as [s' r] end;
       cbn [snd] in *; destruct r; cbn; congruence.
+  - unfold m_batch. destruct (batch_go s l); cbn; discriminate.
 Qed.
 Lemma m_trace_release ops : forall s, ~ In OAbort (m_trace Release s ops).
 Proof.
@@ -1126,6 +1137,22 @@ Proof. unfold c_getv, with_log. destruct (cpoison c); auto. destruct (clog c) eq
 Lemma cinv_same c c' : local c' = local c -> clog c' = clog c -> cinv c -> cinv c'.
 Proof. unfold cinv. intros -> ->. auto. Qed.
 
+(** put_batch_unlogged *)
+Lemma c_unlogged_inv c l : cinv c -> cinv (fst (c_unlogged c l)).
+Proof.
+  intros Hi. unfold c_unlogged. destruct (cpoison c); auto.
+  destruct (clog c) as [lg|] eqn:L; cbn [fst].
+  - unfold cinv in *. cbn [c_poison clog]. rewrite L in *. exact Hi.
+  - destruct (m_batch (local c) l). exact Logic.I.
+Qed.
+Lemma c_unlogged_local_mono c l k :
+  vle (version_of (local c) k) (version_of (local (fst (c_unlogged c l))) k).
+Proof.
+  unfold c_unlogged. destruct (cpoison c); [apply vle_refl|].
+  destruct (clog c); [apply vle_refl|].
+  pose proof (m_batch_mono (local c) l k) as H. destruct (m_batch (local c) l). exact H.
+Qed.
+
 Lemma c_step_inv p sid c o :
   cinv c -> (o = Enter -> enter_ok p c) -> cinv (fst (c_step p sid c o)).
 Proof.
@@ -1139,13 +1166,15 @@ Proof.
   - pose proof (c_enter_inv p sid c Hi (EO eq_refl)) as H. destruct (c_enter p sid c); auto.
   - apply c_prepare_inv; auto.
   - pose proof (c_commit_inv c Hi) as H. destruct (c_commit c); auto.
+  - pose proof (c_unlogged_inv c l Hi) as H. destruct (c_unlogged c l); auto.
 Qed.
 
-(** the local store changes only by commit *)
+(** the local store changes only by commit (and by the restore path put_batch_unlogged, which
+    is refused inside a transaction) *)
 Theorem c_local_only_by_commit f p sid c o :
-  o <> Commit -> local (fst (c_step_gen f p sid c o)) = local c.
+  o <> Commit -> (forall l, o <> Unlogged l) -> local (fst (c_step_gen f p sid c o)) = local c.
 Proof.
-  intros N. destruct o; cbn [c_step_gen]; auto.
+  intros N NU. destruct o; cbn [c_step_gen]; auto.
   - pose proof (c_put_local f p c k v) as H. destruct (c_put_gen f p c k v); auto.
   - pose proof (c_pwv_local f c k ver v) as H. destruct (c_pwv_gen f c k ver v); auto.
   - pose proof (c_batch_local f l c) as H. destruct (c_batch_gen f c l); auto.
@@ -1157,18 +1186,21 @@ Proof.
   - unfold c_prepare, with_log. destruct (cpoison c); auto. destruct (clog c) as [l|]; auto.
     destruct l as [|[k e] [|x r]]; auto. destruct (kcmp k WRITER); auto.
   - congruence.
+  - exfalso. apply (NU l). reflexivity.
 Qed.
 
-Lemma op_eq_commit (o : op) : o = Commit \/ o <> Commit.
-Proof. destruct o; auto; right; discriminate. Qed.
+Lemma op_eq_commit (o : op) : o = Commit \/ (exists l, o = Unlogged l) \/ (o <> Commit /\ forall l, o <> Unlogged l).
+Proof. destruct o; eauto; right; right; split; intros; discriminate. Qed.
 (** the local store never lowers a version (any key, any state) *)
 Lemma c_step_local_mono p sid c o k :
   vle (version_of (local c) k) (version_of (local (fst (c_step p sid c o))) k).
 Proof.
-  destruct (op_eq_commit o) as [->|N].
+  destruct (op_eq_commit o) as [->|[[l ->]|[N NU]]].
   - cbn [c_step c_step_gen]. unfold c_commit. destruct (cpoison c); [apply vle_refl|].
     destruct (clog c) as [l|]; [|apply vle_refl].
     pose proof (m_batch_mono (local c) l k) as H. destruct (m_batch (local c) l). exact H.
+  - cbn [c_step c_step_gen]. pose proof (c_unlogged_local_mono c l k) as H.
+    destruct (c_unlogged c l). exact H.
   - unfold c_step. rewrite c_local_only_by_commit; auto. apply vle_refl.
 Qed.
 
@@ -1212,6 +1244,12 @@ Proof.
     destruct (c_commit_ok c l Hi P L) as (s' & E & Sp). unfold c_commit in E. rewrite P, L in E.
     destruct (m_batch (local c) l) as [s r]. inversion E; subst. cbn [fst].
     unfold visv, c_visible. cbn [clog local]. rewrite L, Sp. apply vle_refl.
+  - (* put_batch_unlogged: outside a transaction the view is the local store *)
+    unfold c_unlogged. destruct (cpoison c); [apply vle_refl|].
+    destruct (clog c) as [lg|] eqn:L; cbn [fst].
+    + rewrite (visv_same c (c_poison c) k); auto. apply vle_refl.
+    + pose proof (m_batch_mono (local c) l k) as H. destruct (m_batch (local c) l) as [s' r].
+      cbn [fst] in *. unfold visv, c_visible. cbn [clog local]. rewrite L. exact H.
 Qed.
 
 (** * histories *)
@@ -1280,7 +1318,7 @@ Proof. rewrite c_run_app. apply c_from_local_mono. Qed.
 
 (** * committed = reported *)
 Definition is_write (o : op) : bool :=
-  match o with Put _ _ | PutV _ _ _ | Batch _ | Delete _ => true | _ => false end.
+  match o with Put _ _ | PutV _ _ _ | Batch _ | Delete _ | Unlogged _ => true | _ => false end.
 (** the report that stands after request [o] was answered [x]: the answer of the last
     [prepare], void as soon as a write request, an [enter] or a [commit] follows it *)
 Definition next_report (rep : option (list kvv)) (o : op) (x : obs) : option (list kvv) :=
@@ -1449,3 +1487,80 @@ Section Range.
   Theorem range_prefix_sorted p s : ksorted s -> ksorted (range_prefix p s).
   Proof. intros S. apply take_prefixed_sorted, drop_below_sorted, S. Qed.
 End Range.
+
+(* ------------------------------------------------------------------ *)
+(** * the restore path: put_batch_unlogged, signer restarts *)
+
+(** in an accepted batch every entry is at or above the version its key had before *)
+Lemma batch_go_entry_ge l : forall (s s' : store) k v x n,
+  batch_go s l = Some s' -> In (k, (v, x)) l -> version_of s k = Some n -> n <= v.
+Proof.
+  induction l as [|[k0 [ver val]] r IH]; intros s s' k v x n; cbn [batch_go In]; [tauto|].
+  destruct (judge (lookup k0 s) ver val) eqn:J; try discriminate; intros G [E|E] V.
+  - inversion E; subst. apply judge_write in J. unfold version_of in V.
+    destruct (lookup k s) as [[v0 x0]|]; cbn [option_map fst] in V; inversion V; subst. lia.
+  - pose proof (m_pwv_mono s k0 ver val k) as M. unfold m_pwv in M. rewrite J in M. cbn [fst] in M.
+    rewrite V in M. cbn [vle] in M.
+    destruct (version_of (upsert k0 (ver, val) s) k) as [n1|] eqn:V1; [|contradiction].
+    specialize (IH _ _ k v x n1 G E V1). lia.
+  - inversion E; subst. apply judge_same in J. unfold version_of in V. rewrite J in V.
+    cbn [option_map fst] in V. inversion V. lia.
+  - eapply IH; eauto.
+Qed.
+
+(** every record of a restored list - tombstones (empty values) included - is in the local
+    store afterwards, with its version *)
+Theorem c_restore_records_kept c l c' :
+  c_unlogged c l = (c', ROk) ->
+  forall k e, last_entry k l = Some e -> lookup k (local c') = Some e.
+Proof.
+  unfold c_unlogged. destruct (cpoison c); [discriminate|]. destruct (clog c); [discriminate|].
+  destruct (m_batch (local c) l) as [s' r] eqn:E. intros Q. inversion Q; subst. clear Q.
+  apply m_batch_atomic in E. destruct E as [[E _]|[_ G]]; [discriminate|]. intros k e LE.
+  cbn [local]. rewrite (batch_go_spec l _ _ k G), LE. reflexivity.
+Qed.
+(** ... so a later list that serves one of those keys at a lower version (a replayed older
+    copy, whatever its value) is refused as a whole and changes nothing *)
+Theorem c_restore_replay_refused c l c1 k n val :
+  c_unlogged c l = (c1, ROk) -> last_entry k l = Some (n, val) ->
+  forall l2 v x, In (k, (v, x)) l2 -> v < n -> c_unlogged c1 l2 = (c1, RErr).
+Proof.
+  intros E LE l2 v x I2 Lt. pose proof (c_restore_records_kept c l c1 E k (n, val) LE) as K.
+  unfold c_unlogged in E. destruct (cpoison c); [discriminate|]. destruct (clog c); [discriminate|].
+  destruct (m_batch (local c) l) as [s' r]. inversion E; subst. clear E. cbn [local] in K.
+  unfold c_unlogged. cbn [cpoison clog local]. unfold m_batch.
+  destruct (batch_go s' l2) as [s2|] eqn:G; [|reflexivity]. exfalso.
+  assert (version_of s' k = Some n) as V by (unfold version_of; rewrite K; reflexivity).
+  pose proof (batch_go_entry_ge l2 s' s2 k v x n G I2 V). lia.
+Qed.
+(** the same for the plain stores, where put_batch_unlogged is put_batch *)
+Theorem m_restore_replay_refused (s : store) l s1 k n val :
+  m_batch s l = (s1, ROk) -> last_entry k l = Some (n, val) ->
+  forall l2 v x, In (k, (v, x)) l2 -> v < n -> m_batch s1 l2 = (s1, RErr).
+Proof.
+  intros E LE l2 v x I2 Lt. apply m_batch_atomic in E. destruct E as [[E _]|[_ G]]; [discriminate|].
+  pose proof (batch_go_spec l s s1 k G) as K. rewrite LE in K.
+  unfold m_batch. destruct (batch_go s1 l2) as [s2|] eqn:G2; [|reflexivity]. exfalso.
+  assert (version_of s1 k = Some n) as V by (unfold version_of; rewrite K; reflexivity).
+  pose proof (batch_go_entry_ge l2 s1 s2 k v x n G2 I2 V). lia.
+Qed.
+
+(** the local store of a disk-backed cloud store never lowers a version, over any history with
+    restarts (open transactions are lost by a restart, the local store is not) *)
+Lemma cr_step_local_mono p sid c o k :
+  vle (version_of (local c) k) (version_of (local (fst (cr_step p sid c o))) k).
+Proof.
+  destruct o; try apply c_step_local_mono. cbn [cr_step fst local]. apply vle_refl.
+Qed.
+Definition cr_from (p : profile) (sid : value) (c : cloud) (ops : list op) : cloud :=
+  fold_left (fun c o => fst (cr_step p sid c o)) ops c.
+Lemma cr_from_local_mono p sid ops : forall c k,
+  vle (version_of (local c) k) (version_of (local (cr_from p sid c ops)) k).
+Proof.
+  induction ops as [|o r IH]; intros c k; cbn [cr_from fold_left].
+  - apply vle_refl.
+  - eapply vle_trans; [apply (cr_step_local_mono p sid c o k)|apply IH].
+Qed.
+Theorem cr_local_version_never_lowered p sid pre post k :
+  vle (version_of (local (cr_run p sid pre)) k) (version_of (local (cr_run p sid (pre ++ post))) k).
+Proof. unfold cr_run. rewrite fold_left_app. apply cr_from_local_mono. Qed.
